@@ -62,6 +62,7 @@ static void item_arc (long it, void *arg)
 	for (j = 0; j < steps; j++) {
 		check_state (s, 1);
 		s = (s * (uint64_t) 16807) % M31;	/* reference walk (the library's next state was compared with it above) */
+		if ((j & 0xFFFFF) == 0) vf_heartbeat ();
 		if ((j & 0xFFFFF) == 0 && vf_deadline_hit ()) { vf_incomplete ("arc %ld stopped at step %llu of %llu (deadline)", it, (unsigned long long) j, (unsigned long long) steps); vf_stat_add (st_states, (long) j); vf_stat_add (st_trans, (long) j * NMAXV); return; }
 	}
 	if (s != arc_start[it + 1]) bad ("arc-end-differs-from-next-arc-start", arc_start[it], 0, s, arc_start[it + 1]);
@@ -88,6 +89,7 @@ static void item_seed (long it, void *arg)
 		if (ok && of_seed != s) bad ("valid-seed-not-accepted", s, 0, of_seed, s);
 		if (!ok && of_seed != sentinel) bad ("invalid-seed-changed-state", s, 0, of_seed, sentinel);
 		n++;
+		if ((n & 0xFFFF) == 0) vf_heartbeat ();
 		if (s >= WIN[it].hi || s + WIN[it].stride < s) break;
 	}
 	if (it == 4) { of_seed = sentinel; of_rfc5170_srand (~(uint64_t) 0); if (of_seed != sentinel) bad ("invalid-seed-changed-state", ~(uint64_t) 0, 0, of_seed, sentinel); n++; }
